@@ -115,7 +115,8 @@ def run_case(case):
         shared_desc = True
     elif act in ("RW", "RW1C", "RW1S"):
         decoy(rng, lambda: getattr(action, act)(shape, init=init_value(desc, init_bits)))
-        dut = getattr(action, act)(shape, init=init_value(desc, init_bits))
+        from vmon.simkit import omit
+        dut = getattr(action, act)(shape, **omit(rng, "action", init=init_value(desc, init_bits)))
     else:
         decoy(rng, lambda: getattr(action, act)(shape))
         dut = getattr(action, act)(shape)
